@@ -942,6 +942,12 @@ def extract_fields(obj: model.CanContainImportsDocumentable) -> None:
                            'docstring', field.lineno)
                 continue
             attrobj: Optional[model.Documentable] = obj.contents.get(arg)
+            if attrobj is not None and not isinstance(attrobj, model.Attribute):
+                # The name is bound to a module, a class or a function: the field must not
+                # turn that object into a variable or replace its documentation.
+                obj.report(f'Field "{tag} {arg}" refers to {attrobj.fullName()!r}, which is not a variable',
+                           'docstring', field.lineno)
+                continue
             if attrobj is None:
                 attrobj = obj.system.Attribute(obj.system, arg, obj)
                 attrobj.kind = None
